@@ -38,6 +38,10 @@ def gen_owner_records(rng, curie_pool, uri_pool, n):
     return out
 
 
+class _NotARecord(ValueError):
+    """Record(**submission) raised inside the harness: the submission is not a record under this library."""
+
+
 class C01Machine(Machine):
     PROP = PROP
     EXPECTED_PROBES = [
@@ -360,9 +364,20 @@ class C01Machine(Machine):
             raise Violation(PROP, "valid_delivery_raised", op.get("op", "?"),
                             {"exception": type(e).__name__, "message": str(e)[:300], "op": op})
 
+    def _mk(self, r):
+        """Build the Record of a delivery. A submission the library's Record class refuses to build
+        (with whatever exception class) never reaches a converter: for C01 that is a refused delivery,
+        exactly like a ValueError from the add call - which records exist is not this property's business."""
+        try:
+            return self.curies.Record(**r)
+        except Exception as e:  # noqa: BLE001
+            self.event("record_not_constructible")
+            raise _NotARecord(type(e).__name__) from None
+
     def _apply(self, op):
         c = self.curies
-        Record, Converter = c.Record, c.Converter
+        Converter = c.Converter
+        Record = lambda **r: self._mk(r)      # noqa: E731 - every Record of a delivery goes through _mk
         kind = op["op"]
         site = kind
         if kind == "confluence":
@@ -433,6 +448,7 @@ class C01Machine(Machine):
             if op.get("follow_up"):
                 # the derived converter is extended BEFORE it is looked at for the first time
                 try:
+                    Record(prefix="dvnew", uri_prefix="dv:new/", uri_prefix_synonyms=["dv:new/x_"])
                     derived.add_prefix("dvnew", "dv:new/", uri_prefix_synonyms=["dv:new/x_"])
                     owners.register("dv:new/", "dvnew")
                     owners.register("dv:new/x_", "dvnew")
@@ -459,16 +475,22 @@ class C01Machine(Machine):
                     if shape == 0:
                         items.append(Record(**r))                                   # a Record object
                     elif shape == 1:
+                        Record(**r)              # (pre-flight: see _mk)
                         items.append({k: v for k, v in r.items() if v not in ([], None)})   # optional keys left out
                     else:
+                        Record(**r)
                         items.append(dict(r))
                 self.conv = Converter.from_extended_prefix_map(
                     tokens.as_container(op.get("container", "list"), items), delimiter=delim)
                 self.probe("epm_given_as_" + op.get("container", "list"))
             elif via == "priority":
+                for r in recs:
+                    Record(prefix=r["prefix"], uri_prefix=r["uri_prefix"], uri_prefix_synonyms=list(r["uri_prefix_synonyms"]))
                 self.conv = Converter.from_priority_prefix_map(
                     {r["prefix"]: [r["uri_prefix"], *r["uri_prefix_synonyms"]] for r in recs}, delimiter=delim)
             elif via == "reverse":
+                for r in recs:
+                    Record(prefix=r["prefix"], uri_prefix=r["uri_prefix"], uri_prefix_synonyms=list(r["uri_prefix_synonyms"]))
                 rpm = {}
                 known = {(u, r["prefix"]) for r in recs for u in [r["uri_prefix"], *r["uri_prefix_synonyms"]]}
                 for u, pr in op.get("rpm_pairs", []):
@@ -533,6 +555,7 @@ class C01Machine(Machine):
                 if kind == "add_record":
                     conv.add_record(Record(**r))
                 else:
+                    Record(**dict(r, pattern=None))          # (pre-flight: see _mk)
                     conv.add_prefix(r["prefix"], r["uri_prefix"], prefix_synonyms=list(r["prefix_synonyms"]),
                                     uri_prefix_synonyms=list(r["uri_prefix_synonyms"]))
                 self._register(r)
@@ -568,6 +591,7 @@ class C01Machine(Machine):
                     if op.get("pattern"):
                         self.probe("piece_with_pattern")
                 else:
+                    Record(prefix=pr, uri_prefix=up, uri_prefix_synonyms=list(ups))
                     conv.add_prefix(pr, up, uri_prefix_synonyms=ups, merge=True)
                 self.owners.register(op["uri_prefix"], op["prefix"])
                 self.probe("split_delivery")
@@ -589,6 +613,7 @@ class C01Machine(Machine):
                     if op["via"] == "add_record":
                         conv.add_record(Record(**r))
                     else:
+                        Record(**dict(r, pattern=None))
                         conv.add_prefix(r["prefix"], r["uri_prefix"], prefix_synonyms=list(r["prefix_synonyms"]),
                                         uri_prefix_synonyms=list(r["uri_prefix_synonyms"]))
                 except ValueError:
